@@ -253,7 +253,13 @@ func c16monitor(c *Ctx, cs *Case, ob obs) {
 	}
 	for i := 1; i < len(ob.outs); i++ {
 		if !bytes.Equal(ob.outs[i], ob.outs[0]) {
-			viol("nondeterministic-output", "deterministic", fmt.Sprintf("rendering %d of the same event and configuration differs from rendering 0", i), q(string(ob.outs[i])), q(string(ob.outs[0])))
+			how := func(i int) string {
+				if i < len(cs.Constructions) {
+					return cs.Constructions[i]
+				}
+				return "literal"
+			}
+			viol("nondeterministic-output", "deterministic", fmt.Sprintf("rendering %d of the same event and configuration (writer built: %s) differs from rendering 0 (writer built: %s)", i, how(i), how(0)), q(string(ob.outs[i])), q(string(ob.outs[0])))
 			break
 		}
 	}
@@ -264,6 +270,48 @@ func c16monitor(c *Ctx, cs *Case, ob obs) {
 		checkLine(cs, m, string(out), viol)
 	}
 	timePart(cs, m, viol)
+	messagePart(cs, m, viol)
+}
+
+// messagePart: what the default message formatter prints IS the value under the message key (no
+// transformation, unlike time, level and caller).  Reading committed to: when that value is a JSON
+// number the part carries its exact JSON digits ("numbers appear with their exact JSON digits"),
+// when it is a non-empty string the part carries the string verbatim or Go-quoted (either form is
+// accepted).  Only containment is demanded, so nothing is said about what surrounds the text;
+// nothing is demanded for booleans, null, objects and arrays under the message key, nor for a
+// number under level/caller.  The part is taken alone (PartsOrder = [message], all fields excluded).
+func messagePart(cs *Case, m map[string]interface{}, viol func(key, mon, desc string, observed, expected interface{})) {
+	o := cs.Opts
+	if inList("message", o.PartsExclude) || (o.PartsOrderSet && !inList("message", o.PartsOrder)) {
+		return
+	}
+	var forms []string
+	what := ""
+	switch x := m["message"].(type) {
+	case json.Number:
+		forms, what = []string{string(x)}, "the JSON number "+string(x)
+	case string:
+		if x == "" {
+			return
+		}
+		forms, what = []string{x, strconv.Quote(x)}, "the string "+q(x)
+	default:
+		return
+	}
+	all := make([]string, 0, len(m))
+	for k := range m {
+		all = append(all, k)
+	}
+	o1 := o
+	o1.PartsOrderSet, o1.PartsOrder, o1.PartsExclude, o1.FieldsOrder, o1.FieldsExclude = true, []string{"message"}, nil, nil, all
+	ob := render(&Case{Event: cs.Event, Opts: o1}, 1)
+	got := strings.TrimSuffix(string(ob.outs[0]), "\n")
+	for _, f := range forms {
+		if strings.Contains(got, f) {
+			return
+		}
+	}
+	viol("message-part-loses-value", "message-part-lossless", fmt.Sprintf("the message key holds %s; the message part (default formatter, colour off) reads %s: the value is not on the line (fields named like a part are never printed as name=value, so it appears nowhere)", what, q(got)), q(got), forms)
 }
 
 // timePart: the time part of an event whose timestamp is a JSON integer under a UNIX TimeFieldFormat, against a
